@@ -8,7 +8,7 @@ package yqlib
 // operators pair each LHS result with each RHS result per input node, LHS-major.
 
 type c01V struct {
-	k     int // 0 null 1 bool 2 int 3 str 4 seq 5 map
+	k     int // 0 null 1 bool 2 int 3 str 4 seq 5 map 6 float n/2 (literals in comparisons only)
 	b     bool
 	i     int64
 	s     string
@@ -20,6 +20,9 @@ func c01Null() *c01V          { return &c01V{k: 0} }
 func c01Bool(b bool) *c01V    { return &c01V{k: 1, b: b} }
 func c01Int(i int64) *c01V    { return &c01V{k: 2, i: i} }
 func c01Str(s string) *c01V   { return &c01V{k: 3, s: s} }
+
+// c01Half: the float n/2 (a literal such as -2.5); only ever compared, never printed
+func c01Half(n int64) *c01V { return &c01V{k: 6, i: n} }
 func c01Seq(it ...*c01V) *c01V { return &c01V{k: 4, items: it} }
 func c01Map(keys []string, it []*c01V) *c01V {
 	return &c01V{k: 5, keys: keys, items: it}
@@ -339,7 +342,7 @@ func c01Arith(op string) func(a, b *c01V) (*c01V, bool) {
 
 func c01Cmp(op string) func(a, b *c01V) (*c01V, bool) {
 	return func(a, b *c01V) (*c01V, bool) {
-		if a.k >= 4 || b.k >= 4 {
+		if a.k == 4 || a.k == 5 || b.k == 4 || b.k == 5 {
 			c01Open = true // yq defines ==, != and ordering on scalars only
 		}
 		switch op {
@@ -350,6 +353,17 @@ func c01Cmp(op string) func(a, b *c01V) (*c01V, bool) {
 		}
 		if a.k == 0 || b.k == 0 {
 			c01Open = true
+		}
+		if (a.k == 2 || a.k == 6) && (b.k == 2 || b.k == 6) && a.k+b.k > 4 {
+			// an integer against a float literal n/2: the numeric order, decided exactly on doubled values
+			x, y := a.i, b.i
+			if a.k == 2 {
+				x = 2 * x
+			}
+			if b.k == 2 {
+				y = 2 * y
+			}
+			a, b = c01Int(x), c01Int(y)
 		}
 		if a.k != 2 || b.k != 2 {
 			return nil, false
@@ -830,6 +844,13 @@ func c01Programs() []c01Prog {
 		{"(.a, [.b, .b, .b]) | length", c01Pipe(c01Union(a, c01Collect(c01Union(b, c01Union(b, b)))), c01Length)},
 		{"(.a, [.b, .b, .b]) | has(2)", c01Pipe(c01Union(a, c01Collect(c01Union(b, c01Union(b, b)))), c01Has("", 2))},
 		{"(.a, [.b, .b, .b]) | .[-1]", c01Pipe(c01Union(a, c01Collect(c01Union(b, c01Union(b, b)))), c01Index(-1))},
+		// integers against float literals with a fraction on both sides of zero (the order is the numeric one)
+		{".a[] | select((. - 3) > -2.5)", c01Pipe(ai, c01Select(c01Bin(c01Bin(c01Self, c01Lit(c01Int(3)), c01Arith("-")), c01Lit(c01Half(-5)), c01Cmp(">"))))},
+		{".a | map(select((. - 2) < -0.5))", c01Pipe(a, c01MapF(c01Select(c01Bin(c01Bin(c01Self, c01Lit(c01Int(2)), c01Arith("-")), c01Lit(c01Half(-1)), c01Cmp("<")))))},
+		{".m.k | ((. - 3) >= -1.5)", c01Pipe(c01Pipe(m, c01Key("k")), c01Bin(c01Bin(c01Self, c01Lit(c01Int(3)), c01Arith("-")), c01Lit(c01Half(-3)), c01Cmp(">=")))},
+		{"-0.5 <= (.b - 1)", c01Bin(c01Lit(c01Half(-1)), c01Bin(b, one, c01Arith("-")), c01Cmp("<="))},
+		{".a | map(select(. > 1.5))", c01Pipe(a, c01MapF(c01Select(c01Bin(c01Self, c01Lit(c01Half(3)), c01Cmp(">")))))},
+		{"2.5 > .m.k", c01Bin(c01Lit(c01Half(5)), c01Pipe(m, c01Key("k")), c01Cmp(">"))},
 		// select whose condition yields NO result for some of the current nodes (a splat of an empty sequence, a nested
 		// select that drops everything): such a node is not selected, whatever the verdict on its neighbours was
 		{"(.a, .e) | select(.[] == 1)", c01Pipe(c01Union(a, c01Key("e")), c01Select(c01Bin(c01Splat, one, c01Cmp("=="))))},
